@@ -18,8 +18,9 @@ from fractions import Fraction
 import vlib
 import c13_lib as L
 import c15_lib
+import c13_hist as H
 
-HDR = ("From Coq Require Import List ZArith Bool PrimFloat.\nFrom RV Require Import Common.FloatNum C13.Model C13.TreeModel C13.Run.\n"
+HDR = ("From Coq Require Import List ZArith Bool PrimFloat.\nFrom RV Require Import Common.FloatNum C13.Model C13.TreeModel C13.Hybrid C13.Run.\n"
        "Import ListNotations.\nOpen Scope Z_scope.\nOpen Scope float_scope.\n")
 
 
@@ -234,6 +235,54 @@ def correspondence(ctx, rebound):
     bad_h = run_jobs(ctx, "hs", "bad_merge_cases", hterms, 20)
     ctx.obligation("correspondence:C13 reb_collision_search+hardsphere: log and all particle doubles bit-for-bit on %d runs" % len(hterms),
                    bad_h == [], "mismatching cases: %s" % [hinfo[b] for b in (bad_h or [])[:2]])
+    # ---------- (h) hybrid integrators: DIRECT restricted to the encounter map (fields set through ctypes, outcome 0)
+    nh2 = ctx.scale(120, 1200)
+    mterms2, minfo2 = [], []
+    for k in range(nh2):
+        cfg = L.gen_cluster(rng, tree=False, line=False)
+        sim = L.make_sim(rebound, cfg)
+        n = cfg["N"]
+        kind = rng.choice(["mercurius0", "mercurius1", "mercurius1", "trace_kepler", "trace_kepler", "trace_interaction", "trace_none", "trace_full"])
+        sub = sorted(rng.sample(range(n), rng.randint(1, n)))
+        if rng.random() < 0.7 and 0 not in sub:
+            sub = [0] + sub
+        arr = (ctypes.c_int * n)(*(sub + [0] * (n - len(sub))))
+        if kind.startswith("mercurius"):
+            sim.integrator = "mercurius"
+            rim = sim.ri_mercurius
+            rim.mode = int(kind[-1])
+            holder, field = rim, "_encounter_map"
+            rim._encounter_N = len(sub)
+        else:
+            sim.integrator = "trace"
+            rit = sim.ri_trace
+            rit._mode = {"kepler": 1, "interaction": 0, "none": 2, "full": 3}[kind.split("_")[1]]
+            holder, field = rit, "_encounter_map"
+            rit._encounter_N = len(sub)
+        setattr(holder, field, ctypes.cast(arr, ctypes.POINTER(ctypes.c_int)))
+        got = []
+        def cbh(sp, c, got=got, sim=sim):
+            got.append((c.p1, c.p2, L.gbid(L.gb_int(sp.contents, c))))
+            return 0
+        try:
+            L.search(rebound, sim, cbh)
+        finally:
+            setattr(holder, field, ctypes.POINTER(ctypes.c_int)())      # the library must not free our array
+        if kind in ("mercurius1", "trace_kepler"):
+            emap, ninner = sub, len(sub)
+        elif kind == "trace_full":
+            emap, ninner = list(range(n)), n
+        else:
+            emap, ninner = list(range(n)), 1
+        term = "pending_mapped %s (%d)%%Z %s [%s] %d%%nat" % (box_args(cfg, sim), cfg["seed"], L.particles(cfg),
+                                                            "; ".join("%d%%nat" % v for v in emap), ninner)
+        mterms2.append("(%s, %s)" % (term, L.entries(got)))
+        minfo2.append(dict(kind=kind, sub=sub, cfg=cfg))
+        ctx.case(key=("mapped", kind, cfg["periodic"], n, len(sub), min(len(got), 20)), nontrivial=len(got) > 0)
+        dist["mapped|" + kind] = dist.get("mapped|" + kind, 0) + 1
+    bad_mp = run_jobs(ctx, "mapped", "bad_search_cases", mterms2, 30)
+    ctx.obligation("correspondence:C13 DIRECT restricted to the MERCURIUS/TRACE encounter map (binary64)+shuffle == array handed to resolve on %d runs"
+                   % len(mterms2), bad_mp == [], "mismatching cases: %s" % [minfo2[b] for b in (bad_mp or [])[:2]])
     # ---------- (e) max_radius0/1 after a sequence of reb_simulation_add calls
     nr = ctx.scale(200, 2000)
     rterms = []
@@ -249,8 +298,8 @@ def correspondence(ctx, rebound):
     bad_r = run_jobs(ctx, "radii", "bad_cases", rterms, 100)
     ctx.obligation("correspondence:C13 add_radius_num(binary64) == max_radius0/1 after reb_simulation_add on %d sequences" % len(rterms),
                    bad_r == [], "mismatching cases: %s" % (bad_r or [])[:5])
-    allok = bad_loop == [] and bad_search == [] and bad_m == [] and bad_h == [] and bad_r == [] and bad_wf == []
-    ctx.traces = (len(loop_terms) + len(search_terms) + len(mterms) + len(hterms) + len(rterms)) if allok else 0
+    allok = bad_loop == [] and bad_search == [] and bad_m == [] and bad_h == [] and bad_r == [] and bad_wf == [] and bad_mp == []
+    ctx.traces = (len(loop_terms) + len(search_terms) + len(mterms) + len(hterms) + len(rterms) + len(mterms2)) if allok else 0
     ctx.extra["input_distribution"] = dict(sorted(dist.items()))
     return allok
 
@@ -648,11 +697,74 @@ def search_restore(ctx, rebound, fails):
         shutil.rmtree(tmp, ignore_errors=True)
 
 
+def fixed_hybrid_scenario(rebound, integrator):
+    """star, a small planet P, a puffy body C on an impact course with P (hit after ~200 steps), a projectile D that passes P at
+    a distance 0.012: it misses the small P but must hit the grown body once C and P have merged"""
+    sc = dict(integrator=integrator, dt=1e-3, seed=1, bodies=[], ops=[])
+    sim = H.new_sim(rebound, sc)
+    sim.add(m=1.0, r=1e-3, hash=1)
+    sim.add(m=1e-10, r=3e-4, a=1.0, f=0.0, hash=10)
+    p = sim.particles[1]
+    sim.add(m=1e-10, r=0.02, x=p.x, y=p.y - 0.03, z=0, vx=p.vx, vy=p.vy + 0.05, vz=0, hash=11)
+    sim.add(m=1e-10, r=1e-3, x=p.x + 0.012, y=p.y - 0.06, z=0, vx=p.vx, vy=p.vy + 0.08, vz=0, hash=12)
+    handed, cnt, grown = set(), dict(handed=0, merges=0), set()
+    H.merge_recorder(rebound, sim, handed, cnt, grown)
+    v, done = H.step_and_judge(sim, handed, 1200)
+    if v:
+        cause, info = H.cause_of(sim, sc, v["pair"], grown, set())
+        v.update(cause=cause, info=info, N=sim.N, fresh_simulation_also_misses=True)
+    return sc, v
+
+
+def hybrid_key(sc, v):
+    return "hybrid:%s:missed:%s%s" % (sc["integrator"], v["cause"], "" if v["fresh_simulation_also_misses"] else ":history")
+
+
+def search_histories(ctx, rebound, fails):
+    """MERCURIUS and TRACE with the direct search: histories of steps / removals / mergers / additions (into freed slots or beyond)
+    judged at every step boundary by a brute-force overlap oracle, and re-run from the same state in a fresh simulation"""
+    rng = ctx.rng
+    for integ in ("mercurius", "trace"):
+        sc, v = fixed_hybrid_scenario(rebound, integ)
+        ctx.evaluations += 1
+        if v:
+            fails.append((hybrid_key(sc, v), dict(kind="history", scenario="fixed: P(1e-10, r 3e-4, a=1), C(r 0.02) 0.03 behind at +0.05, "
+                          "D(r 1e-3) 0.06 behind, 0.012 aside at +0.08, dt 1e-3", problem=v)))
+    for integ, n in (("mercurius", ctx.scale(36, 400)), ("trace", ctx.scale(14, 150))):
+        for k in range(n):
+            sc = H.gen_history(rng, integ)
+            res = H.run_history(rebound, sc)
+            ctx.evaluations += 1
+            ctx.nontrivial.add(("history", integ, tuple(o[0] for o in sc["ops"]), min(res["merges"], 4)))
+            if res["violation"]:
+                fails.append((hybrid_key(sc, res["violation"]), dict(kind="history", scenario=sc, problem=res["violation"])))
+
+
+def check_dcrit_sites(ctx, regen_ok):
+    """regenerated from the source: every function that adds a particle or changes a radius / mass refreshes dcrit on every path"""
+    if not regen_ok:
+        return
+    body = ("From Coq Require Import List String.\nFrom RV Require Import Gen.C13Dcrit.\nImport ListNotations.\n"
+            "Eval vm_compute in dcrit_unrefreshed.\nEval vm_compute in (List.length dcrit_sites).\n")
+    ok, out = vlib.coq_eval("c13_dcrit", body)
+    import re
+    m = re.search(r"=\s*\[(.*?)\]\s*:\s*list string", out, re.S)
+    ctx.obligation("regenerated:C13 dcrit refresh sites evaluated", ok and m is not None, out[-800:])
+    if ok and m:
+        for name in re.findall(r'"([^"]+)"', m.group(1)):
+            ctx.violation("dcrit:unrefreshed:" + name,
+                          dict(function=name, what="changes a particle's radius/mass or adds a particle without refreshing ri_mercurius.dcrit "
+                               "(no recalculate_r_crit_this_timestep = 1 and no dcrit[i] assignment on some path)"),
+                          found_input=False, what="%s does not refresh the MERCURIUS critical radius on every path" % name)
+
+
 # ================================================================================================ entry point
 def run(ctx):
     libdir = ctx.lib()
     rebound = load(libdir)
+    regen_ok = ctx.regen("translate_c13_dcrit.py")
     proved = ctx.prove("C13", extra_targets=["C13/Run.vo"])
+    check_dcrit_sites(ctx, regen_ok)
     ctx.log("proofs checked")
     corr_ok = correspondence(ctx, rebound)
     ctx.log("correspondence done")
@@ -668,6 +780,8 @@ def run(ctx):
     search_merge(ctx, rebound, fails)
     search_hardsphere(ctx, rebound, fails)
     search_restore(ctx, rebound, fails)
+    search_histories(ctx, rebound, fails)
+    ctx.log("history searcher done")
     seen = set()
     for key, rep in fails:
         if key in seen:
